@@ -329,3 +329,20 @@ func pickGroup(t *rapid.T, filter func(*GroupInfo) bool) *GroupInfo {
 	}
 	return gs[rapid.IntRange(0, len(gs)-1).Draw(t, "group")]
 }
+
+func isUnit(v, q *big.Int) bool {
+	if v.Sign() == 0 {
+		return false
+	}
+	return new(big.Int).GCD(nil, nil, v, q).Cmp(big1) == 0
+}
+
+// isRapidPanic recognises the control-flow panics of rapid itself (Fatalf, Skip, exhausted data),
+// which a recover() inside a property must pass on.
+func isRapidPanic(p any) bool {
+	switch fmt.Sprintf("%T", p) {
+	case "rapid.stopTest", "rapid.invalidData":
+		return true
+	}
+	return false
+}
